@@ -35,6 +35,11 @@ Reference statements (this file, not pony's code):
     except strings outside Oracle that are neither unique nor part of a composite key/index); primary key, unique
     indexes, composite keys, indexes on foreign key columns, foreign keys to the parent's key with the documented
     ON DELETE, m2m tables with a composite key and two cascading foreign keys; CREATE TABLE has one line per column.
+  * inheritance (mapping_inherit): every column of an attribute declared in a subclass is nullable (also the columns of a
+    composite foreign key), nullable=True is honoured, the root keeps its declared nullability;
+  * real limits (real_limits): the shipped providers' max_name_len equals the documented limit (PostgreSQL 63 =
+    NAMEDATALEN - 1, MySQL 64, Oracle 30) and mappings with entity / attribute names of length limit-1, limit, limit+1
+    generate no name beyond it.
 
 Findings on the unchanged tree have their own harnesses (oracle_auto_pk_names*, order_qualified) so that they do not
 mask anything else.
